@@ -796,6 +796,13 @@ func (g *gen) stmt(d int) []*N {
 			default:
 				a, b := g.fresh("m"), g.fresh("m")
 				rhs := n("list", g.intExpr(1), g.intExpr(1))
+				if g.r.Chance(12) { // too many / too few values: the count mismatch must be raised
+					if g.r.Bool() {
+						rhs.C = append(rhs.C, g.intExpr(1))
+					} else {
+						rhs.C = rhs.C[:1]
+					}
+				}
 				g.declare(a, "int")
 				g.declare(b, "int")
 				return []*N{ns("multi", a+","+b, rhs)}
@@ -865,6 +872,27 @@ func (g *gen) stmt(d int) []*N {
 		g.loop--
 		g.sw = saved
 		g.pop()
+		// the post clause in every statement form the grammar allows there: `i++`, an
+		// assignment, or an expression statement (identifier, operator, call), whose value the
+		// compiler has to pop each time round; with an expression post clause the counter is
+		// advanced first thing in the body (a `continue` must not skip it)
+		switch g.r.Intn(10) {
+		case 0, 1:
+			return []*N{n("for3", nVar(i, nInt(0)), nInfix("<", nId(i), nInt(bound)), nAssign(i, "+=", nInt(1)), b)}
+		case 2, 3:
+			var post *N
+			switch g.r.Intn(3) {
+			case 0:
+				post = nId(i)
+			case 1:
+				post = nInfix("*", nId(i), nInt(2))
+			default:
+				g.prints++
+				post = nCall(nId("print"), nId(i))
+			}
+			b.C = append([]*N{nAssign(i, "+=", nInt(1))}, b.C...)
+			return []*N{n("for3", nVar(i, nInt(-1)), nInfix("<", nId(i), nInt(bound-1)), n("expr", post), b)}
+		}
 		return []*N{n("for3", nVar(i, nInt(0)), nInfix("<", nId(i), nInt(bound)), ns("postfix", i+" ++"), b)}
 	case choice < 21 && deep: // condition loop with its own counter, incremented first
 		c := g.fresh("c")
